@@ -1,0 +1,10 @@
+//go:build verif
+
+package markdown
+
+// VerifState exposes the parser's learnt state to the verification harness.
+func (p *Parser) VerifState() (spaces int, sep string, isSharpRoot bool) {
+	p.mu.RLock()
+	defer p.mu.RUnlock()
+	return p.spaces, p.sep, p.isSharpRoot
+}
